@@ -207,6 +207,31 @@ Proof.
   exists i'. rewrite Hi', st_with_in. reflexivity.
 Qed.
 
+(* a current frame over parent frames (a decompressed record set over the response) *)
+Definition stp (ps : list frame) (bse : Z) (i : list N) (c : Z) (h : hdr) (lr el : Z) : msr :=
+  mkMsr (mkFrame i (len i) bse c h :: ps) false lr el.
+
+Lemma stp_exact ps bse i c h lr el : top_exact (stp ps bse i c h lr el) (mkFrame i (len i) bse c h) ps i.
+Proof. unfold top_exact, stp. cbn. auto. Qed.
+
+Lemma step_stp {A B} (c : M A) (k : A -> M B) bs v rest ps bse cc h lr el :
+  mspec c bs v -> bind c k (stp ps bse (bs ++ rest) cc h lr el) = k v (stp ps bse rest cc h lr el).
+Proof.
+  intros H. unfold bind. rewrite (H _ _ ps rest (stp_exact ps bse (bs ++ rest) cc h lr el)). reflexivity.
+Qed.
+
+Lemma top_stp {B} (k : frame -> M B) ps bse i cc h lr el :
+  bind top k (stp ps bse i cc h lr el) = k (mkFrame i (len i) bse cc h) (stp ps bse i cc h lr el).
+Proof. reflexivity. Qed.
+
+Lemma mshort_stp {A} (c : M A) bs q q' ps bse cc h lr el :
+  mshort c bs -> bs = q ++ q' -> q' <> [] ->
+  exists i', c (stp ps bse q cc h lr el) = MErr EShort (stp ps bse i' cc h lr el).
+Proof.
+  intros H He Hq. destruct (H _ _ ps q q' (stp_exact ps bse q cc h lr el) He Hq) as [i' Hi'].
+  exists i'. rewrite Hi'. reflexivity.
+Qed.
+
 (* ---------------------------------------------------------------- one v2 record *)
 Definition vhdr (b : pbatch) (plen : Z) : hdr :=
   mkHdr (pb_base b) (49 + plen) 2 (pb_codec b) (pb_ts b) (pb_lod b) (Z.of_nat (length (pb_recs b))).
@@ -226,12 +251,13 @@ Qed.
 Definition msg_fields (base lod : Z) (r : record) :=
   (r_off r, base + lod, r_ts r, opt_bytes (r_key r), opt_bytes (r_val r), r_hdrs r).
 
-Lemma record_ok base ts0 lod L attr n r rest c lr el :
+Lemma record_ok_g ps bse base ts0 lod L attr n r rest c lr el :
   rec_fits r -> small base -> small ts0 -> 0 <= lod < 2 ^ 31 -> 0 < c ->
   blen (enc_record_body base ts0 r) < 2 ^ 31 ->
   let h := mkHdr base L 2 attr ts0 lod n in
-  read_v2_record (st (enc_record base ts0 r ++ rest) c h lr el)
-  = MOk (msg_fields base lod r) (st rest (c - 1) h (lr - len (enc_record base ts0 r)) el).
+  read_v2_record (stp ps bse (enc_record base ts0 r ++ rest) c h lr el)
+  = MOk (msg_fields base lod r)
+        (mkMsr (unwind (mkFrame rest (len rest) bse (c - 1) h :: ps)) false (lr - len (enc_record base ts0 r)) el).
 Proof.
   intros Hf Hb Ht Hlod Hc Hbl h.
   destruct (rec_vs base ts0 r Hf Hb Ht) as (V1 & V2 & V3).
@@ -240,32 +266,43 @@ Proof.
   set (body := i8 0 ++ put_varint (r_ts r - ts0) ++ put_varint (r_off r - base) ++ vbytes (r_key r)
                ++ vbytes (r_val r) ++ put_varint (Z.of_nat (length (r_hdrs r))) ++ flat_map enc_rec_header (r_hdrs r)) in *.
   assert (VL : vsmall (blen body)) by (pose proof (len_nonneg body); apply vsmall_len; unfold blen, len in *; lia).
-  rewrite top_st. rewrite <- (app_assoc (put_varint (blen body)) body rest).
-  rewrite (step_st _ _ _ _ _ _ _ _ _ (mspec_lift _ _ _ (pspec_varint _ VL))).
-  rewrite top_st. cbv zeta. cbn [f_remain].
+  rewrite top_stp. rewrite <- (app_assoc (put_varint (blen body)) body rest).
+  rewrite (step_stp _ _ _ _ _ _ _ _ _ _ _ (mspec_lift _ _ _ (pspec_varint _ VL))).
+  rewrite top_stp. cbv zeta. cbn [f_remain].
   subst body. rewrite <- !app_assoc.
-  rewrite (step_st _ _ (i8 0) 0) by (apply mspec_lift, pspec_int; [lia|unfold in_signed; cbn; lia]).
-  rewrite (step_st _ _ _ _ _ _ _ _ _ (mspec_lift _ _ _ (pspec_varint _ V1))).
-  rewrite (step_st _ _ _ _ _ _ _ _ _ (mspec_lift _ _ _ (pspec_varint _ V2))).
-  rewrite (step_st _ _ _ _ _ _ _ _ _ (mspec_vbytes _ F3)).
-  rewrite (step_st _ _ _ _ _ _ _ _ _ (mspec_vbytes _ F4)).
-  rewrite (step_st _ _ _ _ _ _ _ _ _ (mspec_lift _ _ _ (pspec_varint _ V3))).
-  rewrite top_st. cbn [f_remain].
+  rewrite (step_stp _ _ (i8 0) 0) by (apply mspec_lift, pspec_int; [lia|unfold in_signed; cbn; lia]).
+  rewrite (step_stp _ _ _ _ _ _ _ _ _ _ _ (mspec_lift _ _ _ (pspec_varint _ V1))).
+  rewrite (step_stp _ _ _ _ _ _ _ _ _ _ _ (mspec_lift _ _ _ (pspec_varint _ V2))).
+  rewrite (step_stp _ _ _ _ _ _ _ _ _ _ _ (mspec_vbytes _ F3)).
+  rewrite (step_stp _ _ _ _ _ _ _ _ _ _ _ (mspec_vbytes _ F4)).
+  rewrite (step_stp _ _ _ _ _ _ _ _ _ _ _ (mspec_lift _ _ _ (pspec_varint _ V3))).
+  rewrite top_stp. cbn [f_remain].
   assert (Hn : Z.to_nat (Z.min (Z.of_nat (length (r_hdrs r))) (len (flat_map enc_rec_header (r_hdrs r) ++ rest) + 1))
                = length (r_hdrs r)).
   { rewrite len_app. pose proof (headers_len (r_hdrs r)). pose proof (len_nonneg rest). lia. }
   rewrite Hn.
-  rewrite (step_st _ _ _ _ _ _ _ _ _ (mspec_headers _ F6)).
-  rewrite top_st. cbn [f_hdr]. unfold bind at 1, get_lrem. cbn [m_lrem st].
-  unfold bind at 1, set_lrem. unfold bind at 1, mark_read. cbn [m_stack st f_count].
+  rewrite (step_stp _ _ _ _ _ _ _ _ _ _ _ (mspec_headers _ F6)).
+  rewrite top_stp. cbn [f_hdr]. unfold bind at 1, get_lrem. cbn [m_lrem stp].
+  unfold bind at 1, set_lrem. unfold bind at 1, mark_read. cbn [m_stack stp f_count].
   replace (c =? 0) with false by lia. unfold ret, msg_fields, h. cbn [h_first h_lod h_ts m_stack m_empty m_elast set_stack unwind f_in f_remain f_base f_count f_hdr].
   unfold small in *.
   rewrite !wrap64_small by lia.
-  unfold st, set_stack. cbn [m_stack m_empty m_lrem m_elast f_in f_remain f_base f_count f_hdr unwind].
+  unfold stp, set_stack. cbn [m_stack m_empty m_lrem m_elast f_in f_remain f_base f_count f_hdr].
   f_equal.
   - repeat f_equal; lia.
   - f_equal. rewrite !len_app. unfold blen, len. lia.
 Qed.
+
+Lemma record_ok base ts0 lod L attr n r rest c lr el :
+  rec_fits r -> small base -> small ts0 -> 0 <= lod < 2 ^ 31 -> 0 < c ->
+  blen (enc_record_body base ts0 r) < 2 ^ 31 ->
+  let h := mkHdr base L 2 attr ts0 lod n in
+  read_v2_record (st (enc_record base ts0 r ++ rest) c h lr el)
+  = MOk (msg_fields base lod r) (st rest (c - 1) h (lr - len (enc_record base ts0 r)) el).
+Proof.
+  intros. apply (record_ok_g [] 0); assumption.
+Qed.
+
 
 Lemma record_short base ts0 lod L attr n r q q' c lr el :
   rec_fits r -> small base -> small ts0 ->
